@@ -12,7 +12,7 @@ git apply $MODE "$patch" || exit 3
 cd /verif
 for id in "$@"; do
   start=$(date +%s)
-  out=$(./check "$id" "${TIER:-quick}" 2>/tmp/try_mutant.err); rc=$?
+  out=$(VERIF_WATCHDOG_S=20 ./check "$id" "${TIER:-quick}" 2>/tmp/try_mutant.err); rc=$?
   end=$(date +%s)
   echo "== $id rc=$rc ($((end-start))s) $(echo "$out" | grep -c VIOLATION) violation line(s)"
   grep -E "FAILED" /tmp/try_mutant.err | cut -c1-300 | head -3
